@@ -112,6 +112,33 @@ func check(c *pbt.Case, r *pbt.R) {
 				r.Failf("Join text is not the branch texts joined by newlines", "got %q want %q\n%s", got, want, c.Spec)
 			}
 		}
+		// Join copies its arguments: the caller's slice is left alone, and
+		// what the caller does to it afterwards does not change the join.
+		if l.Spec.K == "join" {
+			var xs []error
+			for _, x := range l.Spec.X {
+				xs = append(xs, b.Of[x])
+			}
+			args := gen.JoinArgs(l.Spec.I[0], xs)
+			before := append([]error(nil), args...)
+			j := errors.Join(args...)
+			for i := range args {
+				if !ref.SameVal(args[i], before[i]) {
+					r.Failf("Join modifies the slice of its arguments", "position %d\n%s", i, c.Spec)
+				}
+			}
+			wantText := j.Error()
+			clobber := goErr.New("clobbered")
+			for i := range args {
+				args[i] = clobber
+			}
+			if j.Error() != wantText || len(errbase.UnwrapMulti(errors.UnwrapOnce(j))) != len(xs) {
+				r.Failf("a Join changes when the caller reuses the slice it was built from", "%q vs %q\n%s", j.Error(), wantText, c.Spec)
+			}
+			if ok, _ := obs.SafeIs(j, clobber); ok {
+				r.Failf("a Join changes when the caller reuses the slice it was built from", "Is(join, later content of the slice)\n%s", c.Spec)
+			}
+		}
 		// Is succeeds exactly when it succeeds on the error itself or on a branch.
 		for _, rf := range refs {
 			got, p := obs.SafeIs(M, rf.Obj)
